@@ -410,24 +410,25 @@ fn case_b() -> impl Strategy<Value = CaseB> {
 }
 
 pub fn run(ctx: &mut Ctx) {
+    let fs = ctx.first_shard();
     ctx.rule = "(A) authenticator over the reference store (contract semantics, call log), MemoryStore, the Option slot and Arc<Mutex<MemoryStore>>: contents of 0-8 credentials over 3 RPs with equal user handles across RPs; assertions and registrations with every allow/exclude-list shape (absent, empty, hits, misses, ids of another RP, unknown descriptor types). (B) contract conformance of every shipped store and lock wrapper on generated save/update/query sequences. Non-trivial = (A) at least two RPs populated and a list that names a foreign RP's id, (B) a query whose expected result differs from 'all credentials'; distinct by case / by (store, contents, query).".into();
     ctx.assumptions = vec![
         "lookup contract: result = { c | c.rp_id == rp_id and (ids is None or c.id in ids) } as a set; an empty result may be Ok([]) or NoCredentials".into(),
         "'first credential the store lists' is asserted on the reference store, whose listing order is insertion order".into(),
         "known finding D5 (MemoryStore family ignores rp_id when ids are given) is classified by signature and counted; any other disagreement is a violation".into(),
     ];
-    let n = ctx.tier.pick(4_000u32, 120_000u32);
+    let n = ctx.tier.pick(4_000u32, 2_400_000u32);
     match search(ctx, 5, n, case_a(), check_a) {
         Search::Pass => {}
         Search::Fail(c, msg) => ctx.violation("authenticator", json!(c), &msg),
     }
-    let n = ctx.tier.pick(6_000u32, 200_000u32);
+    let n = ctx.tier.pick(6_000u32, 4_000_000u32);
     match search(ctx, 6, n, case_b(), check_b) {
         Search::Pass => {}
         Search::Fail(c, msg) => ctx.violation("contract", json!(c), &msg),
     }
     // fixed: empty exclude list against populated shipped stores, unknown-typed allow list
-    for kind in [Kind::Ref, Kind::Memory, Kind::OptionSlot, Kind::ArcMutexMemory] {
+    for kind in [Kind::Ref, Kind::Memory, Kind::OptionSlot, Kind::ArcMutexMemory].into_iter().filter(|_| fs) {
         for list in [ListSel::Empty, ListSel::Absent, ListSel::Ids(vec![IdSel::Miss(1, false)]), ListSel::Ids(vec![IdSel::Miss(1, true)]), ListSel::Ids(vec![IdSel::Held(0, false)])] {
             for create in [true, false] {
                 let c = CaseA { kind, contents: vec![CredDesc { rp: 0, user: 0, counter: None }], create, rp: 0, list: list.clone() };
